@@ -38,6 +38,12 @@ VARIANTS = [
     M("revert-F12-wrong-modulus", "jordancurve.JordanCurve.__eq__", "nsegments = len(selcopy.segments)", "nsegments = len(self.segments)", ["R07.6"]),
     M("is-rotation-wrong-modulus", "shape.FollowPath.is_rotation", "if len(oneobj) != len(other):\n        return False", "pass", ["R07.6"]),
     M("unite-wrong-tangent", "curve.PlanarCurve.__or__", "dbpt = other.ctrlpoints[1] - other.ctrlpoints[0]", "dbpt = other.ctrlpoints[-1] - other.ctrlpoints[-2]", ["R07.7"]),
+    M("eq-rotation-offset-from-vertices", "jordancurve.JordanCurve.__eq__",
+      "segment1 = othcopy.segments[0]\n    for index, segment0 in enumerate(selcopy.segments):\n        if segment0 == segment1:\n            break",
+      "start_point = othcopy.vertices[0]\n    for index, vertex in enumerate(selcopy.vertices):\n        if vertex == start_point:\n            break", ["R07.8"]),
+    M("eq-no-rotation-tolerance", "jordancurve.JordanCurve.__eq__", "segment0 = selcopy.segments[(i + index) % nsegments]", "segment0 = selcopy.segments[i]", ["R07.8"]),
+    M("eq-ignores-sampling", "jordancurve.JordanCurve.__eq__", "if point not in self:\n            return False", "pass", ["R07.8"]),
+    M("eq-compares-first-segment-only", "jordancurve.JordanCurve.__eq__", "if segment0 != segment1:\n            return False", "pass", ["R07.8"]),
     T("connected-eq-matching-renamed", "shape.ConnectedShape.__eq__", "othe_subshapes = list(other.subshapes)", "othe_subshapes = [s for s in other.subshapes]"),
     T("eq-modulus-inline", "jordancurve.JordanCurve.__eq__", "segment0 = selcopy.segments[(i + index) % nsegments]",
       "segment0 = selcopy.segments[(i + index) % len(selcopy.segments)]"),
